@@ -22,7 +22,7 @@ PAT_SAMPLES = {
 FORMAT_SAMPLES = {
     "uuid": (["123e4567-e89b-12d3-a456-426614174000"], ["not-a-uuid", "", "123e4567"]),
     "date": (["2024-02-29", "1999-12-31"], ["2024-13-01", "yesterday", ""]),
-    "date-time": (["2024-02-29T12:30:00Z", "1999-12-31T23:59:59+00:00"], ["2024-02-29", "noon", ""]),
+    "date-time": (["2024-02-29T12:30:00Z", "1999-12-31T23:59:59Z"], ["2024-02-29", "noon", ""]),
     "ipv4": (["127.0.0.1", "10.0.0.255"], ["256.1.1.1", "::1", "abc"]),
     "ipv6": (["::1", "fe80::1"], ["127.0.0.1", "gggg::1", ""]),
     "ip": (["127.0.0.1", "::1"], ["300.1.1.1", "nope", ""]),
